@@ -128,6 +128,19 @@ func c20sequential(c *fw.Ctx) {
 	var events []string
 	derive := func(i int) {
 		parent := r.Intn(len(loggers)) // derived from the root or from another derived logger
+		if alvl == nil && r.Intn(6) == 0 {
+			// a field whose rendering itself logs into the buffer (a Stringer that reports through the root logger): With
+			// evaluates it while the derived core is being built; the entry it writes counts like any other
+			sid := fmt.Sprintf("id-98-%d", len(written))
+			d := loggers[parent].With(zap.Stringer("peer", &loggingStringer{log: root, id: sid}))
+			written = append(written, sid)
+			detail = append(detail, sid+"|info")
+			loggers = append(loggers, d)
+			names = append(names, fmt.Sprintf("d%d(with a logging field, from %s at write %d)", len(loggers)-1, names[parent], i))
+			events = append(events, fmt.Sprintf("@%d derive %s", i, names[len(names)-1]))
+			c.Count("derivations_with_a_field_that_logs", 1)
+			return
+		}
 		d := loggers[parent].With(zap.Int("derived", len(loggers)), zap.String("at", fmt.Sprint(i)))
 		loggers = append(loggers, d)
 		names = append(names, fmt.Sprintf("d%d(from %s at write %d)", len(loggers)-1, names[parent], i))
@@ -292,6 +305,14 @@ func c20sequential(c *fw.Ctx) {
 		c.Sample(map[string]any{"total_written": total, "capacity": capacity, "derivations": events, "newest_first_head": head(snapshotIDs(ml), 5)})
 	}
 }
+
+// loggingStringer writes one entry through its logger when it is rendered.
+type loggingStringer struct {
+	log *zap.Logger
+	id  string
+}
+
+func (l *loggingStringer) String() string { l.log.Info(l.id); return "peer" }
 
 // coarseClock ticks once every `every` calls.
 type coarseClock struct {
@@ -528,7 +549,7 @@ func init() {
 			"made of written ids, per-writer newest-first. Race reports are violations. non-trivial = history with at least one derived logger (sequential) / every concurrent run",
 		Cases: func(tier string) int { s, cc := c20layout(tier); return s + cc },
 		Run:   runC20,
-		Floors: map[string]int64{"sequential_histories": 4500, "histories_on_adjustable_level": 2000, "histories_on_a_coarse_clock": 1000, "histories_with_the_buffer_beside_a_verbose_core": 1000, "level_changes": 20000, "writes_below_the_level": 100000, "snapshots_compared_in_detail": 20000, "held_snapshots_rechecked": 100000, "read_gap:capacity": 300, "read_gap:2xcapacity": 300, "read_gap:1": 200, "snapshots_compared": 10000, "derived_loggers": 5000, "histories_above_capacity": 1500, "concurrent_runs": 200, "concurrent_runs_above_capacity": 50,
+		Floors: map[string]int64{"sequential_histories": 4500, "histories_on_adjustable_level": 2000, "histories_on_a_coarse_clock": 1000, "derivations_with_a_field_that_logs": 300, "histories_with_the_buffer_beside_a_verbose_core": 1000, "level_changes": 20000, "writes_below_the_level": 100000, "snapshots_compared_in_detail": 20000, "held_snapshots_rechecked": 100000, "read_gap:capacity": 300, "read_gap:2xcapacity": 300, "read_gap:1": 200, "snapshots_compared": 10000, "derived_loggers": 5000, "histories_above_capacity": 1500, "concurrent_runs": 200, "concurrent_runs_above_capacity": 50,
 			"concurrent_runs_with_snapshots": 90, "entries_written": 3000000},
 		Assumptions: []string{"capacity is read from the exported constant logging.BufferSize", "a case in which writers or GetLogs/WriteLogs do not return for 120 s (normal: milliseconds) is reported as a violation: the buffer no longer returns its entries", "race freedom = no report from the Go race detector on the interleavings that occurred"},
 	})
